@@ -8,7 +8,7 @@ ID = 'C11'
 LEVEL = 'exploration'
 RULE = ('Engine A: ALL eligibility matrices over 7 row types for G <= 3 | 4 geos (7^G, every arrangement, no symmetry '
         'argument) and for G = 5 | 5,6 one arrangement per class-count vector, x size-range / geo-ratio settings '
-        '(12 | 60; for G=4 quick 2, G=5 2 | 12; boundary ratios 1/2, 2/3, 2, 3 included; plus the complete 6 x 6 x 4 grid treatment range x control range x ratio tolerance on one arrangement per class-count vector of 4 geos (quick: vectors over the row types ctx, c_fixed, ct, tx)), x n_geos_max in {-, 3}. Plus HISTORIES on one object (parameters changed three times: new parameter object, in-place edit, new object; count, generators and reference compared after every change). Three-way oracle: fast count == '
+        '(12 | 60; for G=4 quick 2, G=5 2 | 12; boundary ratios 1/2, 2/3, 2, 3 included; plus the complete 6 x 6 x 4 grid treatment range x control range x ratio tolerance on one arrangement per class-count vector of 4 geos (quick: vectors over the row types ctx, c_fixed, ct, tx)), x n_geos_max in {-, 3}. Plus MANY geos (32-40 | 30-44 geos, 4 class mixes x 8 settings): exact count vs a dynamic-programme reference (no enumeration). Plus HISTORIES on one object (parameters changed three times: new parameter object, in-place edit, new object; count, generators and reference compared after every change). Three-way oracle: fast count == '
         'number of (T,C) pairs listed by the real generators over treatment_group_size_range() (no duplicates) == '
         'length of the reference enumeration (itertools.product over per-geo options, exact rational size/ratio '
         'filters). Non-trivial = count > 0 and a non-free row or a size/ratio setting present; distinct = distinct case.')
@@ -76,6 +76,18 @@ def cases(tier, seed):
     for mat in itertools.combinations_with_replacement(grid_rows, 4):
         for kw in ({}, {'treatment_geos_range': [1, 2]}, {'geo_ratio_tolerance': 1.0}):
             out.append({'panel': p, 'rows': list(mat), 'nomatrix': False, 'extra': None, 'kw': kw, 'history': hist})
+    # MANY geos (30-44): the design space is far too large to list, the count must still be the exact integer (binomials of
+    # this size are not exactly representable in floating point); reference = dynamic programme over the geos
+    big_settings = [{}, {'treatment_geos_range': [1, 1], 'control_geos_range': [14, 14]}, {'treatment_geos_range': [1, 2], 'control_geos_range': [16, 17]},
+                    {'treatment_geos_range': [2, 3], 'geo_ratio_tolerance': 8.0}, {'control_geos_range': [15, 15]}, {'treatment_geos_range': [15, 16]},
+                    {'geo_ratio_tolerance': 0.5}, {'treatment_geos_range': [3, 3], 'control_geos_range': [20, 30]}]
+    for G in ((30, 32, 34, 37, 40, 44) if thorough else (32, 37, 40)):
+        pb = {'name': 'A', 'G': G, 'T': 10}
+        mixes = [[[1, 1, 1]] * G, [[1, 1, 1]] * (G - 3) + [[1, 0, 1]] * 2 + [[0, 1, 0]], [[1, 1, 1]] * (G - 1) + [[1, 1, 0]],
+                 [[1, 1, 1]] * (G - 6) + [[0, 1, 1]] * 2 + [[1, 0, 1]] * 2 + [[1, 0, 0]] + [[1, 1, 0]]]
+        for mat in mixes:
+            for kw in big_settings:
+                out.append({'panel': pb, 'rows': [list(r) for r in mat], 'nomatrix': False, 'extra': None, 'kw': kw, 'big': True})
     for G in ((5, 6) if thorough else (5,)):
         p = {'name': 'A', 'G': G, 'T': 10}
         for mat in itertools.combinations_with_replacement(rows7, G):
@@ -86,7 +98,43 @@ def cases(tier, seed):
     return out
 
 
+def dp_count(rows, kw):
+    """Reference count for MANY geos (no enumeration): dynamic programme over the geos, each choosing among the assignments
+    its row allows; state = (#treatment, #control) -> number of ways (exact integers); then the size / ratio filter."""
+    ways = {(0, 0): 1}
+    for r in rows:
+        c_ok, t_ok, x_ok = r
+        nxt = {}
+        for (t, c), w in ways.items():
+            if c_ok:
+                nxt[(t, c + 1)] = nxt.get((t, c + 1), 0) + w
+            if t_ok:
+                nxt[(t + 1, c)] = nxt.get((t + 1, c), 0) + w
+            if x_ok:
+                nxt[(t, c)] = nxt.get((t, c), 0) + w
+        ways = nxt
+    return sum(w for (t, c), w in ways.items() if t >= 1 and c >= 1 and relig.sizes_ok(t, c, kw))
+
+
+def run_big(case):
+    try:
+        mm, _ = sc.build_mm(case)
+        cnt = int(mm.count_max_designs())
+    except ValueError:
+        return {'viol': [], 'nontrivial': False, 'outcome': 'ValueError'}
+    except Exception as e:
+        return {'viol': [{'key': 'C11:exception:' + type(e).__name__, 'msg': '%s: %s' % (type(e).__name__, e)}], 'nontrivial': False, 'outcome': type(e).__name__}
+    exp = dp_count([tuple(r) for r in case['rows']], case['kw'])
+    viol = []
+    if cnt != exp:
+        viol.append({'key': 'C11:count-differs-from-reference:many-geos', 'msg': 'count_max_designs()=%d, exact reference count (dynamic programme over %d geos) %d; settings %s' % (
+            cnt, len(case['rows']), exp, case['kw'])})
+    return {'viol': viol, 'nontrivial': True, 'outcome': 'big:%d' % len(str(exp)), 'counts': {'many_geo_counts': 1}}
+
+
 def run_case(case):
+    if case.get('big'):
+        return run_big(case)
     try:
         mm, _ = sc.build_mm(case)
     except Exception as e:
